@@ -83,7 +83,13 @@ def run(ctx):
             for b, t in f.calls():
                 inst = t.j.get("callee_inst") or ""
                 n = t.j.get("callee_name")
-                if ("std::vec::Vec" in inst or "core::slice" in inst or "std::vec::IntoIter" in inst) and n not in ALLOWED_VEC and n not in ("unwrap", "drop"):
+                # `subs.into_iter().map(Child::build).collect()`: every element once, in order — the loop with push written as a pipeline
+                ordered_pipe = n in ("map", "collect") and not any(cn_.a["name"] in ("rev", "filter", "filter_map", "skip", "take", "step_by", "chain", "zip", "skip_while", "take_while", "flat_map", "sort", "sort_by", "dedup")
+                                                                  for a_ in t.args for cn_ in prim.origin_of_operand(f, a_).call_nodes())
+                if ordered_pipe and n == "map":
+                    fo_ = prim.origin_of_operand(f, t.args[1]).strip() if len(t.args) > 1 else None
+                    ordered_pipe = fo_ is not None and (fo_.k == "const" and str(fo_.a.get("def", fo_.a.get("text", ""))).endswith("::build") or (fo_.k == "agg" and str(fo_.a).startswith("closure:")))
+                if ("std::vec::Vec" in inst or "core::slice" in inst or "std::vec::IntoIter" in inst) and n not in ALLOWED_VEC and n not in ("unwrap", "drop") and not ordered_pipe:
                     ctx.ob("R1", "builder-vec-op:%s@%s" % (n, prim.short(f.path)), False, "%s uses %s on the sub-matcher vector; only append-at-end/last-element access keeps operands in command-line order" % (f.path, inst), fn=f, where=prim.site(f, b))
                 if n == "pop":
                     gs = prim.dominating_guards(f, b)
